@@ -37,6 +37,8 @@ def warmup():
     import cv2
     cv2.setNumThreads(1)
     import parse_folder  # noqa
+    from sim import pfworld
+    pfworld.assert_pool_model()
     for i in (0, 1, 2):
         p = resume.make_plan(0, 'warm', i, 0, False)
         resume.execute(p)
